@@ -89,39 +89,65 @@ Definition has (m : files) (k : fname) : bool :=
 (* last_update.txt: absent, opened for writing and still empty, or a time *)
 Inductive stamp_state : Set := NoStamp | StampTorn | StampAt (t : nat).
 
+(* advisory locks: inode of a lock file -> pid holding the lock on it *)
+Definition locktab := list (nat * nat).
+
+Fixpoint lget (l : locktab) (i : nat) : option nat :=
+  match l with
+  | [] => None
+  | (j, q) :: t => if Nat.eqb i j then Some q else lget t i
+  end.
+
+Fixpoint ldel (l : locktab) (i : nat) : locktab :=
+  match l with
+  | [] => []
+  | (j, q) :: t => if Nat.eqb i j then ldel t i else (j, q) :: ldel t i
+  end.
+
+Definition lset (l : locktab) (i p : nat) : locktab := (i, p) :: ldel l i.
+
 Record shared := mkSh {
   files_of : files;          (* HED*.xml copies and temporary files *)
   stamp : stamp_state;       (* last_update.txt *)
-  lockfile : bool;           (* cache_lock.lock exists *)
-  flock : option nat;        (* OS advisory lock on cache_lock.lock: holder pid *)
+  lockfile : option nat;     (* the file (inode number) now named cache_lock.lock, if any *)
+  locks : locktab;           (* OS advisory locks, per inode: unlinking a file does not touch the
+                                lock a process holds through its open descriptor *)
+  next_ino : nat;            (* next fresh inode number: unlink + re-create gives a different file *)
   clock : nat;               (* time.time() *)
   netreqs : nat              (* number of network requests made so far *)
 }.
 
 Definition set_files (s : shared) (m : files) : shared :=
-  mkSh m (stamp s) (lockfile s) (flock s) (clock s) (netreqs s).
+  mkSh m (stamp s) (lockfile s) (locks s) (next_ino s) (clock s) (netreqs s).
 Definition set_stamp (s : shared) (t : stamp_state) : shared :=
-  mkSh (files_of s) t (lockfile s) (flock s) (clock s) (netreqs s).
-Definition set_flock (s : shared) (l : option nat) : shared :=
-  mkSh (files_of s) (stamp s) true l (clock s) (netreqs s).
+  mkSh (files_of s) t (lockfile s) (locks s) (next_ino s) (clock s) (netreqs s).
+Definition set_locks (s : shared) (l : locktab) : shared :=
+  mkSh (files_of s) (stamp s) (lockfile s) l (next_ino s) (clock s) (netreqs s).
+Definition set_lockfile (s : shared) (f : option nat) : shared :=
+  mkSh (files_of s) (stamp s) f (locks s) (next_ino s) (clock s) (netreqs s).
 Definition set_clock (s : shared) (t : nat) : shared :=
-  mkSh (files_of s) (stamp s) (lockfile s) (flock s) t (netreqs s).
+  mkSh (files_of s) (stamp s) (lockfile s) (locks s) (next_ino s) t (netreqs s).
 Definition add_net (s : shared) : shared :=
-  mkSh (files_of s) (stamp s) (lockfile s) (flock s) (clock s) (S (netreqs s)).
+  mkSh (files_of s) (stamp s) (lockfile s) (locks s) (next_ino s) (clock s) (S (netreqs s)).
 
-(* the OS releases the advisory lock of p (unlock, or process death) *)
-Definition release (p : nat) (s : shared) : shared :=
-  match flock s with
-  | Some q => if Nat.eqb p q
-              then mkSh (files_of s) (stamp s) (lockfile s) None (clock s) (netreqs s)
-              else s
+(* open(cache_lock.lock, 'a'): creates the file (a fresh inode) when the name does not exist *)
+Definition create_lockfile (s : shared) : shared :=
+  mkSh (files_of s) (stamp s) (Some (next_ino s)) (locks s) (S (next_ino s)) (clock s) (netreqs s).
+
+(* the OS drops the advisory lock p holds through descriptor fd (unlock/close, or process death) *)
+Definition release (p : nat) (fd : option nat) (s : shared) : shared :=
+  match fd with
+  | Some i => match lget (locks s) i with
+              | Some q => if Nat.eqb p q then set_locks s (ldel (locks s) i) else s
+              | None => s
+              end
   | None => s
   end.
 
 (* os.listdir(cache) == [] *)
 Definition dir_empty (s : shared) : bool :=
   match files_of s, stamp s, lockfile s with
-  | [], NoStamp, false => true
+  | [], NoStamp, None => true
   | _, _, _ => false
   end.
 
@@ -129,7 +155,9 @@ Record cfg := mkCfg {
   nfiles : nat;       (* number of bundled schema files *)
   nchunks : nat;      (* chunks per file *)
   threshold : nat;    (* CACHE_TIME_THRESHOLD *)
-  max_tries : nat     (* lock attempts before the timeout expires *)
+  max_tries : nat;    (* lock attempts before the timeout expires *)
+  unlink_on_release : bool  (* ANTI-PATTERN switch: __exit__ also removes cache_lock.lock; false for
+                               the code as it is and for the repaired protocol *)
 }.
 
 (* time_since_update < time_threshold, last time 0 when there is no stamp
@@ -213,19 +241,22 @@ Record proc := mkProc {
   tries : nat;           (* failed lock attempts so far *)
   populated : bool;      (* went through a whole population *)
   cache_err : bool;      (* CacheLock.__enter__ raised CacheException *)
-  ts : nat               (* self.current_timestamp *)
+  ts : nat;              (* self.current_timestamp *)
+  fd : option nat        (* inode of the lock file this process has open (portalocker's fh) *)
 }.
 
 Definition goto (r : proc) (c : pc) : proc :=
-  mkProc (kind_of r) c (tries r) (populated r) (cache_err r) (ts r).
+  mkProc (kind_of r) c (tries r) (populated r) (cache_err r) (ts r) (fd r).
 Definition set_err (r : proc) : proc :=
-  mkProc (kind_of r) (pc_of r) (tries r) (populated r) true (ts r).
+  mkProc (kind_of r) (pc_of r) (tries r) (populated r) true (ts r) (fd r).
 Definition set_pop (r : proc) : proc :=
-  mkProc (kind_of r) (pc_of r) (tries r) true (cache_err r) (ts r).
+  mkProc (kind_of r) (pc_of r) (tries r) true (cache_err r) (ts r) (fd r).
 Definition set_ts (r : proc) (t : nat) : proc :=
-  mkProc (kind_of r) (pc_of r) (tries r) (populated r) (cache_err r) t.
+  mkProc (kind_of r) (pc_of r) (tries r) (populated r) (cache_err r) t (fd r).
 Definition inc_tries (r : proc) : proc :=
-  mkProc (kind_of r) (pc_of r) (S (tries r)) (populated r) (cache_err r) (ts r).
+  mkProc (kind_of r) (pc_of r) (S (tries r)) (populated r) (cache_err r) (ts r) (fd r).
+Definition set_fd (r : proc) (d : option nat) : proc :=
+  mkProc (kind_of r) (pc_of r) (tries r) (populated r) (cache_err r) (ts r) d.
 
 Definition start_pc (k : kind) : pc :=
   match k with
@@ -236,7 +267,7 @@ Definition start_pc (k : kind) : pc :=
   | KRefreshFixed => XEnter
   end.
 
-Definition start (k : kind) : proc := mkProc k (start_pc k) 0 false false 0.
+Definition start (k : kind) : proc := mkProc k (start_pc k) 0 false false 0 None.
 
 Definition cur_content (m : files) (k : fname) : content :=
   match fget m k with Some c => c | None => [] end.
@@ -251,6 +282,36 @@ Definition lookup_fixed (c : cfg) (m : files) (v : nat) : pc :=
   if has m (Ver v) then FRead
   else if Nat.ltb v (nfiles c) then FReadInstalled
   else Done (OFail FNotCached).
+
+(* portalocker.Lock.acquire: the file is opened ONCE (first attempt, creating it if the name does
+   not exist); every attempt then tries a non-blocking lock on that same open file *)
+Definition lock_ino (s : shared) (r : proc) : nat :=
+  match fd r with
+  | Some i => i
+  | None => match lockfile s with Some i => i | None => next_ino s end
+  end.
+
+Definition opened (s : shared) (r : proc) : shared :=
+  match fd r with
+  | Some _ => s
+  | None => match lockfile s with Some _ => s | None => create_lockfile s end
+  end.
+
+Definition acquire_step (c : cfg) (p : nat) (s : shared) (r : proc) (ok giveup : pc) : shared * proc :=
+  let i := lock_ino s r in
+  let s1 := opened s r in
+  match lget (locks s) i with
+  | None => (set_locks s1 (lset (locks s) i p), set_fd (goto r ok) (Some i))
+  | Some _ => if Nat.ltb (S (tries r)) (max_tries c)
+              then (s1, set_fd (inc_tries r) (Some i))
+              else (s1, set_fd (set_err (goto r giveup)) None)
+  end.
+
+(* CacheLock.__exit__: unlock and close; with the anti-pattern switch also os.remove(lock file) --
+   whatever file carries the name now *)
+Definition leave (c : cfg) (p : nat) (d : option nat) (s : shared) : shared :=
+  let s1 := release p d s in
+  if unlink_on_release c then set_lockfile s1 None else s1.
 
 (* one file operation of process p *)
 Definition pstep (c : cfg) (p : nat) (s : shared) (r : proc) : shared * proc :=
@@ -325,13 +386,7 @@ Definition pstep (c : cfg) (p : nat) (s : shared) (r : proc) : shared * proc :=
   (* CacheLock.__enter__ (fix F4: an unreadable stamp counts as 0): threshold test first ... *)
   | FEnter => if within c s then (s, set_err (goto r FCheck)) else (s, goto r FAcquire)
   (* ... then (fix F1) the lock is really acquired; LockException -> CacheException -> -1 *)
-  | FAcquire =>
-      match flock s with
-      | None => (set_flock s (Some p), goto r (FExists 0))
-      | Some _ => if Nat.ltb (S (tries r)) (max_tries c)
-                  then (set_flock s (flock s), inc_tries r)
-                  else (set_flock s (flock s), set_err (goto r FCheck))
-      end
+  | FAcquire => acquire_step c p s r (FExists 0) FCheck
   | FExists f =>
       if Nat.leb (nfiles c) f then (s, goto r FRelease)
       else if has m (Ver f) then (s, goto r (FExists (S f)))
@@ -347,7 +402,7 @@ Definition pstep (c : cfg) (p : nat) (s : shared) (r : proc) : shared * proc :=
       | Some x => (set_files s (fset (fdel m (Tmp p f)) (Ver f) x), goto r (FExists (S f)))
       | None => (s, goto r (FExists (S f)))
       end
-  | FRelease => (release p s, set_pop (goto r FCheck))
+  | FRelease => (leave c p (fd r) s, set_fd (set_pop (goto r FCheck)) None)
   | FCheck => (s, goto r (lookup_fixed c m v))
   | FRead =>
       match fget m (Ver v) with
@@ -360,15 +415,9 @@ Definition pstep (c : cfg) (p : nat) (s : shared) (r : proc) : shared * proc :=
   | XEnter =>
       if within c s then (s, set_err (goto r (Done OSkipped)))
       else (s, set_ts (goto r XAcquire) (clock s))
-  | XAcquire =>
-      match flock s with
-      | None => (set_flock s (Some p), goto r XBody)
-      | Some _ => if Nat.ltb (S (tries r)) (max_tries c)
-                  then (set_flock s (flock s), inc_tries r)
-                  else (set_flock s (flock s), set_err (goto r (Done OSkipped)))
-      end
+  | XAcquire => acquire_step c p s r XBody (Done OSkipped)
   | XBody => (add_net s, goto r XExit)
-  | XExit => (release p (set_stamp s (StampAt (ts r))), goto r (Done OSkipped))
+  | XExit => (leave c p (fd r) (set_stamp s (StampAt (ts r))), set_fd (goto r (Done OSkipped)) None)
   | Done _ => (s, r)
   | Dead => (s, r)
   end.
@@ -398,7 +447,7 @@ Definition step (c : cfg) (w : world) (e : event) : world :=
   | Crash p =>
       match nth_error (procs w) p with
       | Some r => if is_done (pc_of r) then w
-                  else mkW (release p (sh w)) (upd (procs w) p (goto r Dead))
+                  else mkW (release p (fd r) (sh w)) (upd (procs w) p (set_fd (goto r Dead) None))
       | None => w
       end
   | Tick d => mkW (set_clock (sh w) (clock (sh w) + d)) (procs w)
@@ -406,7 +455,7 @@ Definition step (c : cfg) (w : world) (e : event) : world :=
 
 Definition run (c : cfg) (w : world) (evs : list event) : world := fold_left (step c) evs w.
 
-Definition sh0 (t : nat) : shared := mkSh [] NoStamp false None t 0.
+Definition sh0 (t : nat) : shared := mkSh [] NoStamp None [] 0 t 0.
 
 (* an empty cache directory at time t and one process per kind *)
 Definition init (t : nat) (ks : list kind) : world := mkW (sh0 t) (map start ks).
